@@ -84,6 +84,7 @@ def gen_connect_case(rng):
 
 
 def correspondence(ctx, model_ok):
+    gen.HOSTILE_P = 0.03     # unusual but legal labels: '', '@', 'a@b', mutual prefixes, case pairs
     r = CorrResult()
     r.rule = ('histories of composition calls (connect_circuit in both directions with internal-gate connectors, '
               'repeated base connectors, partial connector lists; connect_left/right/inputs, extend_circuit, '
